@@ -12,6 +12,9 @@ thread_local! {
 pub struct Peer { pub id: u8 }
 pub struct Conn { pub port: u8, pub peer: Peer }
 
+/// what an `enabled!` invocation evaluated to
+pub fn answer(b: bool) { SEEN.with(|s| s.borrow_mut().push(format!("71:enabled:{}", if b { 1 } else { 0 }))); }
+
 pub fn tick<T>(j: usize, v: T) -> T {
     TICKS.with(|t| { let mut t = t.borrow_mut(); if t.len() <= j { t.resize(j + 1, 0); } t[j] += 1; });
     v
@@ -34,6 +37,13 @@ impl Visit for V {
     fn record_debug(&mut self, f: &Field, v: &dyn fmt::Debug) { self.push(f, "debug", hex(format!("{:?}", v).as_bytes())) }
 }
 
+/// the level of the span / event the collector is handed (1 = ERROR … 5 = TRACE)
+fn note_level(m: &Metadata<'_>) {
+    let l = *m.level();
+    let r = if l == tracing_core::Level::ERROR { 1 } else if l == tracing_core::Level::WARN { 2 } else if l == tracing_core::Level::INFO { 3 } else if l == tracing_core::Level::DEBUG { 4 } else { 5 };
+    SEEN.with(|s| s.borrow_mut().push(format!("6c766c:level:{}", r)));
+}
+
 #[derive(Clone, Copy)]
 pub enum Regime { Enable, StaticNever, DynamicFalse, Cap }
 
@@ -44,10 +54,10 @@ impl Collect for Rec {
     }
     fn enabled(&self, _: &Metadata<'_>) -> bool { !matches!(self.0, Regime::DynamicFalse | Regime::StaticNever) }
     fn max_level_hint(&self) -> Option<LevelFilter> { if let Regime::Cap = self.0 { Some(LevelFilter::WARN) } else { None } }
-    fn new_span(&self, a: &span::Attributes<'_>) -> span::Id { a.record(&mut V); span::Id::from_u64(1) }
+    fn new_span(&self, a: &span::Attributes<'_>) -> span::Id { note_level(a.metadata()); a.record(&mut V); span::Id::from_u64(1) }
     fn record(&self, _: &span::Id, r: &span::Record<'_>) { r.record(&mut V); }
     fn record_follows_from(&self, _: &span::Id, _: &span::Id) {}
-    fn event(&self, e: &Event<'_>) { e.record(&mut V); }
+    fn event(&self, e: &Event<'_>) { note_level(e.metadata()); e.record(&mut V); }
     fn enter(&self, _: &span::Id) {}
     fn exit(&self, _: &span::Id) {}
     fn current_span(&self) -> span::Current { span::Current::unknown() }
